@@ -35,9 +35,11 @@ def make_cases(run):
         ls = [l.rstrip("\n").replace("{REPO}", C.REPO) for l in open(os.path.join(cdir, n)) if l.strip() and not l.startswith("#")]
         cases.append(("corpus:" + n, ls, "corpus"))
     two = "src synthetic pack:2 [numa(memory=1024)] core:2 pu:2"
-    full = ["pre distadd 1004 4 5 0 1", "pre mseto 2 0 1001 0 300", "pre mreg foo 1", "pre mset 8 1 - 7", "pre kobj 1003 0 1 k a", "pre info 0 0 a b", "pre tinfo c d"]
+    full = ["pre subtype 0 0 rootst", "pre distadd 1004 4 5 0 1", "pre mseto 2 0 1001 0 300", "pre mreg foo 1", "pre mset 8 1 - 7", "pre kobj 1003 0 1 k a", "pre info 0 0 a b", "pre tinfo c d"]
     for k in range(0, 5):       # all page-aligned offsets of a small range
         cases.append(("b:offset%d" % k, ["flags 1", two] + full + ["shmem %d" % k], "boundary"))
+    for k in (524287, 524288, 1048575, 1048576, 1572864):      # around 2 GiB and 4 GiB (sparse file): off_t, not int
+        cases.append(("b:offset%d" % k, ["flags 1", two] + full + ["pre subtype 1004 1 st"] + ["shmem %d" % k], "boundary"))
     cases.append(("b:no-include-disallowed", [two] + full + ["shmem 1"], "boundary"))
     cases.append(("b:stale-caches", ["flags 1", two] + full + ["pre robj 1001 0 0", "shmem 0"], "boundary"))
     cases.append(("b:plain-pu1", ["src synthetic pu:1", "shmem 0"], "boundary"))
@@ -46,7 +48,8 @@ def make_cases(run):
         desc = rng.choice(G.SYN) if rng.random() < 0.5 else S.gen_synthetic(rng, max_pus=32)
         cfg = ["flags %d" % rng.choice([0, 1, 1, 1 | 8])] + (["filter 19 0"] if rng.random() < 0.3 else [])
         pre = [l for l in G.gen_history(rng, "filter 19 0" in cfg, npre=rng.randint(0, 5), nmut=0) if l.startswith("pre ")]
-        cases.append(("syn%d:%s" % (i, desc), cfg + ["src synthetic " + desc] + pre + ["shmem %d" % rng.randint(0, 3)], "synthetic"))
+        k = rng.randint(0, 3) if rng.random() < 0.85 else rng.choice([1 << 19, (1 << 19) + rng.randint(1, 9), 1 << 20, 3 << 19])
+        cases.append(("syn%d:%s" % (i, desc), cfg + ["src synthetic " + desc] + pre + ["shmem %d" % k], "synthetic"))
     xmls = S.xml_corpus()
     if quick:
         xmls = rng.sample(xmls, min(16, len(xmls)))
@@ -97,7 +100,8 @@ def run_cases(cases, exe, drv, shard=4):
 
 
 MODIFIERS = {"restrict", "insert_misc", "insert_group", "distances_add", "distances_remove", "distances_remove_by_depth", "diff_apply",
-             "memattr_register", "memattr_set_value", "memattr_set_value_builtin", "cpukinds_register", "refresh", "obj_add_info"}
+             "memattr_register", "memattr_set_value", "memattr_set_value_builtin", "cpukinds_register", "refresh", "obj_add_info",
+             "distances_release_remove", "obj_set_subtype", "obj_set_subtype_existing"}
 
 
 def outcome_code(word):
